@@ -5,10 +5,12 @@ package main
 import (
 	"math"
 	"os"
+	"path/filepath"
 	"strconv"
 	"strings"
 
 	"github.com/Vedant9500/WTF/internal/database"
+	"gopkg.in/yaml.v3"
 )
 
 // C02 monitor: the same request must give the same ranked answer (ids and score bits) on repeated
@@ -39,6 +41,8 @@ func answerIDs(db *database.Database, rs []database.SearchResult) []int {
 	}
 	return out
 }
+
+var c02PersonalDone = map[*database.Database]bool{}
 
 func init() {
 	searchMonitors = append(searchMonitors, func(mon *Mon, cur *SearchRecord, prev []*SearchRecord) {
@@ -102,6 +106,52 @@ func init() {
 		rs2 := db2.SearchUniversal(cur.Query, cur.Opts)
 		if !sameAnswer(cur.DB, cur.Results, db2, rs2) {
 			mon.Hit("C02", "reload-changes-answer", map[string]interface{}{"query": cur.Query, "first": answerIDs(cur.DB, cur.Results), "reloaded": answerIDs(db2, rs2)})
+		}
+		// the same commands split into a main file and a personal notebook, loaded several times through
+		// LoadDatabaseWithPersonal: the merged order (the tie-break of every ranking) and the answer must not
+		// depend on the load (once per database)
+		if n := len(cp); n >= 3 && !c02PersonalDone[cur.DB] {
+			c02PersonalDone[cur.DB] = true
+			k := n / 3
+			dir, err := os.MkdirTemp("", "wtfverif-c02")
+			if err != nil {
+				return
+			}
+			defer os.RemoveAll(dir)
+			mp, pp := filepath.Join(dir, "main.yml"), filepath.Join(dir, "personal.yml")
+			dm, e1 := yaml.Marshal(cp[:k])
+			dp, e2 := yaml.Marshal(cp[k:])
+			if e1 != nil || e2 != nil || os.WriteFile(mp, dm, 0o644) != nil || os.WriteFile(pp, dp, 0o644) != nil {
+				return
+			}
+			var firstDB *database.Database
+			var firstRS []database.SearchResult
+			for l := 0; l < 4; l++ {
+				// the two files as they are on disk (whatever YAML made of the texts), through the real loader
+				d, e := database.LoadDatabaseWithPersonal(mp, pp)
+				if e != nil || d == nil {
+					break
+				}
+				rs := d.SearchUniversal(cur.Query, cur.Opts)
+				if l == 0 {
+					firstDB, firstRS = d, rs
+					mon.Tag("reloaded-with-personal-via-loader")
+					continue
+				}
+				same := len(d.Commands) == len(firstDB.Commands)
+				for i := 0; same && i < len(d.Commands); i++ {
+					same = d.Commands[i].Command == firstDB.Commands[i].Command && d.Commands[i].Description == firstDB.Commands[i].Description
+				}
+				if !same {
+					mon.Hit("C02", "reload-changes-order", map[string]interface{}{"main": k, "personal": n - k, "load": l, "what": "LoadDatabaseWithPersonal merged the same two files into a different command order"})
+					break
+				}
+				if !sameAnswer(firstDB, firstRS, d, rs) {
+					mon.Hit("C02", "reload-changes-answer", map[string]interface{}{"query": cur.Query, "entry": "LoadDatabaseWithPersonal", "first": answerIDs(firstDB, firstRS), "reloaded": answerIDs(d, rs)})
+					break
+				}
+			}
+			mon.Tag("reloaded-with-personal")
 		}
 		mon.Tag("repeated")
 	})
